@@ -1,4 +1,4 @@
-CONSTANTS Alphabet = {"/", ":", ".", "@", "_", "#", "a", "b"}
+CONSTANTS Alphabet = {"/", ":", ".", "@", "_", "a", "b"}
  MaxColon = 6
  MaxAt = 6
  MaxSlash = 7
